@@ -144,6 +144,16 @@ class Cast(StrCompareMixin, pmbl.Call):
     def __getinitargs__(self):
         return (self.name, self.expression, self.kind)
 
+    def __getstate__(self):
+        return (self.function, self.parameters, self.kind)
+
+    def __setstate__(self, state):
+        # The init arguments ``name`` and ``expression`` are read-only views
+        # of ``function`` and ``parameters`` of the underlying
+        # :any:`pymbolic.primitives.Call`, so the generic attribute-wise
+        # ``__setstate__`` of pymbolic cannot restore them
+        self.function, self.parameters, self.kind = state
+
     mapper_method = intern('map_cast')
 
     @property
